@@ -56,6 +56,24 @@ func (s *SubscriptionService) DeleteSubscription(id uint32) {
 
 }
 
+const (
+	// limits of the publishing interval in milliseconds
+	publishingIntervalMin = 1.0
+	publishingIntervalMax = 24 * 60 * 60 * 1000.0
+)
+
+// revisePublishingInterval returns the publishing interval the server is going to use
+// for a requested interval in milliseconds. The result is a valid ticker period.
+func revisePublishingInterval(ms float64) float64 {
+	switch {
+	case !(ms >= publishingIntervalMin): // also true for NaN
+		return publishingIntervalMin
+	case ms > publishingIntervalMax:
+		return publishingIntervalMax
+	}
+	return ms
+}
+
 // https://reference.opcfoundation.org/Core/Part4/v105/docs/5.13.2
 func (s *SubscriptionService) CreateSubscription(sc *uasc.SecureChannel, r ua.Request, reqID uint32) (ua.Response, error) {
 	if s.srv.cfg.logger != nil {
@@ -66,6 +84,13 @@ func (s *SubscriptionService) CreateSubscription(sc *uasc.SecureChannel, r ua.Re
 	if err != nil {
 		return nil, err
 	}
+
+	session := s.srv.Session(req.RequestHeader)
+	if session == nil {
+		// the publish loop of a subscription needs the session's publish requests
+		return nil, ua.StatusBadSessionIDInvalid
+	}
+	interval := revisePublishingInterval(req.RequestedPublishingInterval)
 
 	s.Mu.Lock()
 	defer s.Mu.Unlock()
@@ -78,10 +103,10 @@ func (s *SubscriptionService) CreateSubscription(sc *uasc.SecureChannel, r ua.Re
 
 	sub := NewSubscription()
 	sub.srv = s
-	sub.Session = s.srv.Session(r.Header())
+	sub.Session = session
 	sub.Channel = sc
 	sub.ID = newsubid
-	sub.RevisedPublishingInterval = req.RequestedPublishingInterval
+	sub.RevisedPublishingInterval = interval
 	sub.RevisedLifetimeCount = req.RequestedLifetimeCount
 	sub.RevisedMaxKeepAliveCount = req.RequestedMaxKeepAliveCount
 
@@ -99,7 +124,7 @@ func (s *SubscriptionService) CreateSubscription(sc *uasc.SecureChannel, r ua.Re
 			AdditionalHeader:   ua.NewExtensionObject(nil),
 		},
 		SubscriptionID:            uint32(newsubid),
-		RevisedPublishingInterval: req.RequestedPublishingInterval,
+		RevisedPublishingInterval: interval,
 		RevisedLifetimeCount:      req.RequestedLifetimeCount,
 		RevisedMaxKeepAliveCount:  req.RequestedMaxKeepAliveCount,
 	}
@@ -224,6 +249,9 @@ func (s *SubscriptionService) DeleteSubscriptions(sc *uasc.SecureChannel, r ua.R
 		return nil, err
 	}
 	session := s.srv.Session(req.Header())
+	if session == nil {
+		return nil, ua.StatusBadSessionIDInvalid
+	}
 
 	s.Mu.Lock()
 	defer s.Mu.Unlock()
@@ -240,7 +268,7 @@ func (s *SubscriptionService) DeleteSubscriptions(sc *uasc.SecureChannel, r ua.R
 			results[i] = ua.StatusBadSubscriptionIDInvalid
 			continue
 		}
-		if session.AuthTokenID.String() != sub.Session.AuthTokenID.String() {
+		if sub.Session == nil || session.AuthTokenID.String() != sub.Session.AuthTokenID.String() {
 			results[i] = ua.StatusBadSessionIDInvalid
 			continue
 		}
